@@ -363,6 +363,7 @@ LIB_MRO = {
     "license_expression.ExpressionError": ["license_expression.ExpressionError", "builtins.Exception", "builtins.BaseException"],
     "boolean.boolean.ParseError": ["boolean.boolean.ParseError", "builtins.Exception", "builtins.BaseException"],
     "urllib.error.URLError": ["urllib.error.URLError", "builtins.OSError", "builtins.Exception", "builtins.BaseException"],
+    "http.client.IncompleteRead": ["http.client.IncompleteRead", "http.client.HTTPException", "builtins.Exception", "builtins.BaseException"],
 }
 
 
@@ -465,6 +466,11 @@ class Escape:
             edges_by_node.setdefault(id(node), []).append(tgt)
         ext_by_node = {id(n): full for full, n in self.cg.ext.get(q, [])}
 
+        # handles of a network response: `with urlopen(...) as NAME`
+        net_handles = {item.optional_vars.id for w in ast.walk(fn) if isinstance(w, (ast.With, ast.AsyncWith)) for item in w.items
+                       if isinstance(item.context_expr, ast.Call) and ast.unparse(item.context_expr.func).split(".")[-1] == "urlopen"
+                       and isinstance(item.optional_vars, ast.Name)}
+
         def expr_raises(node: ast.AST) -> dict[str, tuple]:
             out: dict[str, tuple] = {}
             for n in walk_no_nested(node) if not isinstance(node, (ast.FunctionDef,)) else []:
@@ -481,6 +487,12 @@ class Escape:
                         continue
                     for key in self.esc.get(tgt, {}):
                         out.setdefault(key, ("via", tgt, self.repo.loc(n)))
+                # T2: reading the body of a network response fails in ways that are NOT URLError (a short body, a reset)
+                if isinstance(n, ast.Call) and isinstance(n.func, ast.Attribute) and n.func.attr in ("read", "readlines", "readline") \
+                        and isinstance(n.func.value, ast.Name) and n.func.value.id in net_handles:
+                    for exc in ("http.client.IncompleteRead", "builtins.ConnectionError"):
+                        origin = f"{q} | lib | {ast.unparse(n)[:90]}"
+                        out.setdefault((exc, origin), ("lib", "network read", self.repo.loc(n), ast.unparse(n)[:80]))
                 if isinstance(n, ast.Call) and id(n) in ext_by_node:
                     for exc in lib_raises(ext_by_node[id(n)], n, self.facts, self.raw_value_params().get(q)):
                         origin = f"{q} | lib | {ast.unparse(n)[:90]}"
